@@ -180,6 +180,7 @@ def qk_forms(job, cs):
     out = [('text2', txt2(cs), False), ('float', cs / 100.0, False)]
     if cs % 100 == 0:
         out.append(('int', cs // 100, False))
+        out.append(('int-text?', str(cs // 100), False))          # whole units keyed in without a decimal point ('200'): may be refused, must be right if answered
     if job['timed'] and cs >= 6000:
         out.append(('m:ss.xx', mss(cs), False))
     return out
@@ -306,6 +307,8 @@ def bg_forms(job, cs):
     out = [('float', cs / 100.0, False)]
     if cs % 100 == 0:
         out.append(('int', cs // 100, False))
+        if job['timed']:
+            out.append(('int-text?', str(cs // 100), False))
     if job['timed']:
         out.append(('text2', txt2(cs), False))
         if cs >= 6000:
@@ -371,6 +374,12 @@ def spelled_calls(job):
     elif job['sys'] == 'sh':
         for n, e in evs:
             out.append(('event-' + n, lambda v, e=e: a.sportshall_score(e, v)))
+
+        def traced(v):
+            import io, contextlib
+            with contextlib.redirect_stdout(io.StringIO()):
+                return a.sportshall_score(ev, v, verbose=True)
+        out.append(('verbose-option', traced))
     elif job['sys'] == 'bg':
         for n, e in evs:
             out.append(('event-' + n, lambda v, e=e: a.bulgarian_score(job['ag'], job['g'], e, v)))
